@@ -327,7 +327,9 @@ type probeKey struct {
 
 func (k probeKey) method() string {
 	n := strings.NewReplacer("@", "_at_").Replace(k.probe)
-	return fmt.Sprintf("q_%s_%s_%s_%s", k.kind, n, k.recv, k.mod)
+	// the lexical class is part of the name: a probe method of an ancestor must not be overridden by the
+	// same probe of the class the object belongs to (the site "code of G running on an object of D" has to run G's text)
+	return fmt.Sprintf("q%s_%s_%s_%s_%s", k.lex, k.kind, n, k.recv, k.mod)
 }
 
 // declare renders the class fixture with the probe methods the given cells need, the plain-function
